@@ -268,6 +268,35 @@ pub fn run_c09(r: &mut Report) {
         r.case("large-document-signature-binds-all-fields", json!({"stdout_bytes": 2 << 20}), "honest verifies, transplanted signature is rejected",
                format!("honest_ok={} forged_rejected={}", ok_honest, forged_rejected), ok_honest && forged_rejected);
     }
+    // signer sets whose members are related: the same key material under two identifiers (imported from PKCS#8 and from its raw
+    // pair: the hash-algorithm list differs), the same RSA key under both PSS schemes, alone and next to unrelated keys - k signers,
+    // threshold k, both constructors, both layouts
+    {
+        use in_toto::crypto::{PrivateKey, SignatureScheme};
+        let pk8 = std::fs::read("/repo/tests/ed25519/ed25519-1.pk8.der").unwrap();
+        let raw: Vec<u8> = pk8[16..48].iter().chain(pk8[pk8.len() - 32..].iter()).cloned().collect();
+        let e_pk8 = PrivateKey::from_pkcs8(&pk8, SignatureScheme::Ed25519).unwrap();
+        let e_raw = PrivateKey::from_ed25519(&raw).unwrap();
+        let rsa_der = std::fs::read("/repo/tests/rsa/rsa-2048.pk8.der").unwrap();
+        let r256 = PrivateKey::from_pkcs8(&rsa_der, SignatureScheme::RsaSsaPssSha256).unwrap();
+        let r512 = PrivateKey::from_pkcs8(&rsa_der, SignatureScheme::RsaSsaPssSha512).unwrap();
+        let other = key(3);
+        let sets: Vec<(&str, Vec<&PrivateKey>)> = vec![("ed25519 material under two ids", vec![&e_pk8, &e_raw]), ("the same plus an unrelated key", vec![&e_raw, &other, &e_pk8]),
+            ("one RSA key under both PSS schemes", vec![&r256, &r512]), ("all related pairs and an unrelated key", vec![&r512, &e_pk8, &other, &r256, &e_raw])];
+        for (what, signers) in sets {
+            let ids: std::collections::BTreeSet<String> = signers.iter().map(|k| serde_json::to_value(k.key_id()).unwrap().to_string()).collect();
+            for via_new in [true, false] { for pretty in [false, true] {
+                let mb = if via_new { Metablock::new(md.clone(), &signers).unwrap() } else { MetablockBuilder::from_metadata(md.clone().into_trait()).sign(&signers).unwrap().build() };
+                let text = if pretty { serde_json::to_string_pretty(&mb).unwrap() } else { serde_json::to_string(&mb).unwrap() };
+                let back: Metablock = serde_json::from_str(&text).unwrap();
+                let k = signers.len() as u32;
+                let res = no_panic(|| back.verify(k, signers.iter().map(|s| s.public())).is_ok());
+                let res_more = no_panic(|| back.verify(k + 1, signers.iter().map(|s| s.public())).is_ok());
+                r.case("related-signers-threshold-k", json!({"signers": what, "k": k, "distinct_ids": ids.len(), "via_new": via_new, "pretty": pretty}), "verifies with threshold k, not with k+1",
+                       format!("k: {:?}, k+1: {:?}", res, res_more), res == Ok(true) && res_more == Ok(false) && ids.len() == signers.len());
+            } }
+        }
+    }
     // negatives: other key, flipped bit, other scheme
     let (_, k1) = &ks[0];
     let (_, k2) = &ks[1];
